@@ -1,7 +1,7 @@
 (* C18Theorems.v — the property theorems of C18 and nothing else.  Each is closed by
    `exact <lemma>` and followed by Print Assumptions (audited by ./check on every run). *)
 From V.lib Require Import Base.
-From V.c18 Require Import C18Model C18BitsProofs C18AscProofs C18AdtsProofs C18EntryModel C18EntryProofs.
+From V.c18 Require Import C18Model C18BitsProofs C18AscProofs C18AdtsProofs C18EntryModel C18EntryProofs C18TieProofs.
 
 (* DecodeAudioSpecificConfig inverts Encode on the whole supported domain: object types 2/5/29,
    all 16 channel configurations, every sampling / extension frequency in 0 .. 2^24-1 (the 13 table
@@ -163,3 +163,46 @@ Theorem C18_entry_rate_refuted :
                  /\ Z.of_N (e_rate e) <> f.
 Proof. exact entry_rate_refuted. Qed.
 Print Assumptions C18_entry_rate_refuted.
+
+(* ------------------------------------------------------------------ tie to the Go-level bit machine *)
+(* The model reads bits.Reader / bits.Writer as operations on bit lists.  C13Model holds the Go-level
+   machines (value/n accumulators with the 64-bit wrap, byte positions, accumulated error).  The generic
+   decoders instantiated with the C13 reader machine compute exactly what the bit-list instantiation
+   computes, for every byte string (success, EOF and accumulated-error paths) ... *)
+Theorem C18_reader_tie_asc :
+  forall data : list N, bytes_ok data = true -> decode_asc_go data = decode_asc data.
+Proof. exact decode_asc_tie. Qed.
+Print Assumptions C18_reader_tie_asc.
+
+Theorem C18_reader_tie_adts :
+  forall data : list N, bytes_ok data = true -> decode_adts_go data = decode_adts data.
+Proof. exact decode_adts_tie. Qed.
+Print Assumptions C18_reader_tie_adts.
+
+(* ... and the C13 writer machine running the encoders' Write calls (+ Flush for the configuration)
+   emits the model's bytes *)
+Theorem C18_writer_tie_asc :
+  forall (a : asc) (bs : list N), encode_asc a = Ok bs -> go_write (asc_fields a) true = bs.
+Proof. exact encode_asc_tie. Qed.
+Print Assumptions C18_writer_tie_asc.
+
+Theorem C18_writer_tie_adts :
+  forall h : adts, go_write (adts_fields h) false = encode_adts h.
+Proof. exact encode_adts_tie. Qed.
+Print Assumptions C18_writer_tie_adts.
+
+(* hence the property at machine level *)
+Theorem C18_asc_roundtrip_machine :
+  forall (a : asc) (bs : list N),
+    canonical a = true -> encode_asc a = Ok bs ->
+    go_write (asc_fields a) true = bs /\ decode_asc_go bs = Ok a.
+Proof. exact asc_roundtrip_machine. Qed.
+Print Assumptions C18_asc_roundtrip_machine.
+
+Theorem C18_adts_sync_offset_machine :
+  forall (junk : list N) (h : adts) (rest : list N),
+    (length junk <= 187)%nat -> bytes_ok junk = true -> no_sync_in junk = true -> bytes_ok rest = true ->
+    adts_canonical h = true ->
+    decode_adts_go (junk ++ go_write (adts_fields h) false ++ rest) = Ok (h, Z.of_nat (length junk)).
+Proof. exact adts_sync_offset_machine. Qed.
+Print Assumptions C18_adts_sync_offset_machine.
